@@ -171,6 +171,10 @@ def local_effects(func, typer):
                 its.append(n.iter)
             elif isinstance(n, ast.Call) and isinstance(n.func, ast.Name) and n.func.id in FRESH_CALLS | {"next", "any", "all", "max", "min", "sum", "len"}:
                 its.extend(a for a in n.args if not isinstance(a, ast.Starred))
+            elif isinstance(n, ast.Call) and (norm(n.func) in ("islice", "itertools.islice", "takewhile", "dropwhile", "itertools.takewhile", "itertools.dropwhile")
+                                              or norm(n.func) in ("chain", "itertools.chain")):
+                # lazy wrappers of itertools: the wrapped iterator runs when the wrapper is consumed
+                its.extend(a for a in n.args if not isinstance(a, ast.Starred))
             elif isinstance(n, ast.YieldFrom):
                 its.append(n.value)
             for it in its:
